@@ -79,14 +79,18 @@ def run(tier, replay=None):
             f.write(json.dumps(rec) + "\n")
         scale_bases = 1 if obj.get("leg") == "scale" else 0
     else:
-        # 1. design level, no deviation, with action coverage
+        # 1. design level, no deviation; action coverage (vacuity guard) on a smaller bound, -coverage is slow
+        rc = vlib.tlc("ConfigFile", write_cfg(wd, "mc_cov.cfg", 3, [], False), PID, workers=workers, timeout=600,
+                      coverage=True)
+        if not rc["violated"]:
+            vlib.require_actions_covered(rc, ACTIONS)
         r = vlib.tlc("ConfigFile", write_cfg(wd, "mc.cfg", size_mc, [], False), PID, workers=workers,
-                     timeout=3000 if thorough else 600, coverage=True, xmx="6g" if thorough else "4g")
+                     timeout=3000 if thorough else 600, xmx="6g" if thorough else "4g")
         rep.add_tlc(r)
-        if r["violated"]:
-            rep.violation("spec:" + r["violated"], "the specification itself violates %s" % r["violated"], r["out"])
-        else:
-            vlib.require_actions_covered(r, ACTIONS)
+        for x in (rc, r):
+            if x["violated"]:
+                rep.violation("spec:" + x["violated"], "the specification itself violates %s" % x["violated"], x["out"])
+                break
         # 2. each open deviation must still break the property in the model
         for d in devs:
             rd = vlib.tlc("ConfigFile", write_cfg(wd, "mc_dev.cfg", 4, [d], False), PID, workers=workers, timeout=600)
@@ -125,7 +129,7 @@ def run(tier, replay=None):
             raise vlib.ToolError("vacuous run: the SIZE leg found no file to replicate")
     rep.cov["traces_validated_against_impl"] = summ["runs"] + summ["scale_runs"]
     rep.cov["evaluations"] = summ["messages_dispatched"]
-    rep.cov["distinct_nontrivial"] = summ["files"]
+    rep.cov["distinct_nontrivial"] = summ["nonempty_files"]
     rep.cov["exhaustive"] = not replay
     rep.add_samples(summ["samples"], 5)
     rep.extra["valid_files"] = summ["valid_files"]
@@ -145,8 +149,13 @@ def run(tier, replay=None):
                        "+ #optional keys written <= %d (at most 2 listeners, 2 clusters, 2 frontends and 2 backends per cluster; "
                        "protocols http/https/tcp/udp/unknown/missing; 2 addresses; 28 optional keys/values); each rendered to "
                        "real TOML in %s spellings (array-of-tables vs inline vs dotted keys, IPv4 vs IPv6, entry order) and run "
-                       "through load -> messages -> dispatch -> reload. distinct_nontrivial = distinct abstract files; "
+                       "through load -> messages -> dispatch -> reload. distinct_nontrivial = distinct non-empty abstract files; "
                        "plus %d replicated files on the SIZE axis" % (size_gen, "3" if thorough else "2", summ["scale_runs"]))
+    if not os.environ.get("C20_KEEP") and not rep.violations:
+        try:
+            os.remove(beh)      # up to ~1 GB in the thorough tier
+        except OSError:
+            pass
     rep.assumptions += [
         "a frontend whose address has no [[listeners]] entry gets a default listener of the matching kind (what the shipped bin/config.toml relies on); 'frontends without listener' of the property text is read as 'frontends without a listener of the matching kind'",
         "keys outside the modelled subset (answers, health checks, UDP knobs, redirects, header edits, metrics, TLS cipher lists) are never written; for them only 'still at the documented default' is checked",
